@@ -6,6 +6,12 @@ ENGINES = [
 ]
 NOT_BUILT_REASON = {}
 META = {
+    "C07": {
+        "engine": "vkit (E4) + vsched (E1)",
+        "technique": "explicit-state search over proof-producing operation histories with an all-pairs randomiser-reuse oracle; preemption-bounded schedule exploration of the shared-credential harnesses",
+        "text": "Sequentially: every sequence of <=4 (thorough 6) operations from {prepare cache, update witness, prove with/without non-revocation, proof list over two credentials, issuance commitment} is replayed on fresh real objects; all proofs are kept and every pair is judged (implied randomisers of every hidden attribute, the secret key and the exponent distinct; A, C_r, C_u, U never repeat). Concurrently: 2-3 threads on one credential, every interleaving of cache selects / lock / lazy-init accesses up to 2 (3) preemptions, and 2-thread harnesses with the CPRNG reservation step instrumented as well; same oracle over the proofs of each execution.",
+        "note": "The '2..32 goroutines' of the quantifier are replaced by 2-3 threads with full interleaving coverage to the bound. v' randomisers are judged through U/A distinctness only.",
+    },
     "C11": {
         "engine": "vkit (E4 + E2) + venv (E3)",
         "technique": "explicit-state search over credential/issuer operation histories against an accumulator-history model; exhaustive alteration/transplant enumeration of the non-revocation part; environment-answer deviations of every random draw",
